@@ -10,7 +10,8 @@ HARNESS_BIN = 'c17'
 RUN_MODULE = 'Run.C17'
 THEOREMS = ['C17_content_matches', 'C17_serves_the_intended_archive', 'C17_bad_upload_leaves_nothing',
             'C17_crashed_upload_leaves_nothing', 'C17_key_path_total', 'C17_invalid_id_no_effect',
-            'C17_client_content_matches']
+            'C17_client_content_matches', 'C17_failed_rename_leaves_nothing', 'C17_failed_copy_leaves_nothing',
+            'C17_crash_in_fallback_copy_refuted']
 ASSUMPTIONS = [
     'the digest (BLAKE3 via util::Digest) is an abstract function; C17_serves_the_intended_archive additionally assumes '
     'it is injective on the contents in play ("no BLAKE3 collision", hypothesis no_collision); the other theorems hold for ANY digest function',
@@ -37,15 +38,29 @@ _hash_cache = {}
 
 def real_ids(contents):
     """ids of contents, computed by the REAL code (sccache::util::Digest through `c17 hash`)."""
-    need = [c for c in dict.fromkeys(contents) if c not in _hash_cache]
+    need = []
+    for c in contents:
+        if ckey(c) not in _hash_cache and ckey(c) not in [ckey(x) for x in need]:
+            need.append(c)
     if need:
         p = subprocess.run([pipeline.harness_bin(HARNESS_BIN), 'hash'], input=(sx.dumps(need) + '\n').encode(),
                            stdout=subprocess.PIPE, timeout=120)
         ids = sx.loads(p.stdout.decode().strip())
         assert len(ids) == len(need)
         for c, i in zip(need, ids):
-            _hash_cache[c] = i
-    return [_hash_cache[c] for c in contents]
+            _hash_cache[ckey(c)] = i
+    return [_hash_cache[ckey(c)] for c in contents]
+
+
+def expand(c):
+    """a content argument: bytes, or [b'rep', byte, n]"""
+    if isinstance(c, (list, tuple)):
+        return bytes([c[1]]) * c[2]
+    return bytes(c)
+
+
+def ckey(c):
+    return tuple(c) if isinstance(c, (list, tuple)) else bytes(c)
 
 
 def kp(i):
@@ -180,9 +195,9 @@ def monitor(case, out):
     (= every entry file on its disk) has content whose REAL digest is that id; a mismatching / invalid upload is
     rejected and leaves neither an index entry nor a file (nor a temp file) behind; nothing panics."""
     cap, table, ids, init, ops = case
-    dig = {bytes(c): bytes(i) for c, i in table}
-    if out == [b'bad_table']:
-        return []  # the case's table is not the real digest: the correspondence leg reports it
+    dig = {expand(c): bytes(i) for c, i in table}
+    if out == [b'bad_table'] or out == [b'skipped']:
+        return []  # table is not the real digest: the correspondence leg reports it / mount namespaces unavailable
     if not isinstance(out, list) or len(out) != len(ops) + 1:
         return ['malformed implementation output']
     vs = []
@@ -214,21 +229,29 @@ def monitor(case, out):
             if len(ret) != 2 or ret[1] != op[1]:
                 vs.append('op %d get %r: returned content with digest %r' % (n, op[1], ret[1] if len(ret) == 2 else None))
         if op is not None and op[0] == b'insert_file' and res == b'ok':
-            if ret != [dig.get(op[1])]:
-                vs.append('op %d insert_file: returned id %r for content with digest %r' % (n, ret, dig.get(op[1])))
-        if op is not None and op[0] in (b'insert_with', b'crash_upload') and prev is not None:
-            i, content = op[1], op[2]
-            if dig.get(content) != i or not valid(i):
-                if op[0] == b'insert_with' and res == b'ok':
-                    vs.append('op %d: upload under id %r of content with digest %r was accepted' % (n, i, dig.get(content)))
+            if ret != [dig.get(expand(op[1]))]:
+                vs.append('op %d insert_file: returned id %r for content with digest %r' % (n, ret, dig.get(expand(op[1]))))
+        if op is not None and op[0] in (b'insert_with', b'crash_upload', b'insert_file') and prev is not None:
+            if op[0] == b'insert_file':
+                content = expand(op[1])
+                i = dig.get(content, b'')
+            else:
+                i, content = op[1], expand(op[2])
+            bad = dig.get(content) != i or not valid(i)
+            if bad and op[0] == b'insert_with' and res == b'ok':
+                vs.append('op %d: upload under id %r of content with digest %r was accepted' % (n, i, dig.get(content)))
+            # an upload that was not accepted (mismatch, cut short, final rename / copy failed, too large ...)
+            # leaves nothing new under the id: no index entry, no file
+            if bad or (op[0] != b'crash_upload' and res != b'ok'):
+                why = 'rejected' if bad else 'failed (%s)' % res.decode()
                 ppres = {p[0]: p[1] for p in prev[3]}
                 pf = {f[0]: f for f in prev[7]}
                 if pres.get(i) == 1 and ppres.get(i) != 1:
-                    vs.append('op %d: rejected upload left id %r present' % (n, i))
+                    vs.append('op %d: %s upload left id %r present' % (n, why, i))
                 if len(i) >= 2:
                     f = fmap.get(kp(i))
-                    if f is not None and (pf.get(kp(i)) is None or pf[kp(i)][1] != f[1]):
-                        vs.append('op %d: rejected upload left a file under id %r' % (n, i))
+                    if f is not None and (pf.get(kp(i)) is None or pf[kp(i)][3] != f[3]):
+                        vs.append('op %d: %s upload left a file under id %r (%s bytes)' % (n, why, i, f[1] if isinstance(f[1], int) else len(f[1])))
         prev = obs
     return vs
 
@@ -252,7 +275,7 @@ def nontrivial(case, out):
 
 def stats(case, out):
     ks = ['cap=%d' % case[0], 'len=%d' % min(len(case[4]), 30), 'init=%d' % len(case[3])]
-    dig = {bytes(c): bytes(i) for c, i in case[1]}
+    dig = {expand(c): bytes(i) for c, i in case[1]}
     for op in case[4]:
         t = op[0].decode()
         if op[0] in (b'insert_with', b'crash_upload'):
@@ -260,7 +283,7 @@ def stats(case, out):
                 t += ':invalid_id'
             elif op[0] == b'insert_with' and op[3]:
                 t += ':cut'
-            elif dig.get(op[2]) != op[1]:
+            elif dig.get(expand(op[2])) != op[1]:
                 t += ':mismatch'
             else:
                 t += ':match'
@@ -297,6 +320,153 @@ def neighbours(case):
             yield rebuild(case, ops=ops[:i + 1] + [[b'get', op[1]]] + ops[i + 1:])
         if op[0] == b'crash_upload':
             yield rebuild(case, ops=ops[:i + 1] + [[b'get', op[1]]] + ops[i + 1:])
+
+
+# ---------------------------------------------------------------- shard directories that are mount points
+
+_mount_state = {}
+
+
+def mount_ok():
+    """can the harness enter a private mount namespace and mount a tmpfs? (root; otherwise the leg is skipped)"""
+    if 'ok' not in _mount_state:
+        try:
+            p = subprocess.run([pipeline.harness_bin(HARNESS_BIN), 'mountcheck'], stdout=subprocess.PIPE, timeout=60)
+            _mount_state['ok'] = p.stdout.decode().strip() == '1'
+        except Exception:
+            _mount_state['ok'] = False
+    return _mount_state['ok']
+
+
+MSIZES = [10, 100, 4096, 4097, 5000, 8192, 9000]
+MCONTENTS = [[b'rep', 65 + j, n] for n in MSIZES for j in (0, 1)]
+MCAPS = [100000, 20000, 12000, 9000]
+
+
+def mk_mount(cap, mounts, ops):
+    contents = []
+    for op in ops:
+        if op[0] in (b'insert_with', b'crash_upload'):
+            contents.append(op[2])
+        elif op[0] == b'insert_file':
+            contents.append(op[1])
+    seen = []
+    for c in contents:
+        if ckey(c) not in [ckey(x) for x in seen]:
+            seen.append(c)
+    ids = real_ids(seen)
+    alpha = set(ids)
+    for op in ops:
+        if op[0] in (b'insert_with', b'crash_upload', b'get', b'contains', b'remove'):
+            alpha.add(op[1])
+    return [cap, [[c, i] for c, i in zip(seen, ids)], sorted(alpha), mounts, ops]
+
+
+def gen_mount(rng, n, maxlen):
+    if not mount_ok():
+        return []
+    real_ids(MCONTENTS)
+    out = []
+    for _ in range(n):
+        cap = rng.weighted([(100000, 5), (20000, 3), (12000, 2), (9000, 1)])
+        pool = [rng.choice(MCONTENTS) for _ in range(rng.range(2, 5))]
+        pid = [_hash_cache[ckey(c)] for c in pool]
+        # one or two shard directories on a file system of their own: a/b/ or the whole a/
+        mounts = []
+        for i in rng.shuffle(sorted(set(pid)))[:rng.range(1, 2)]:
+            pre = kp(i)[:4] if rng.chance(2, 3) else kp(i)[:2]
+            if not any(m[0].startswith(pre[:2]) for m in mounts):
+                mounts.append([pre, rng.weighted([(1, 3), (2, 3), (3, 1)])])
+        ops = []
+        for _ in range(rng.range(1, maxlen)):
+            kind = rng.weighted([('good', 8), ('mismatch', 2), ('cut', 1), ('crash', 2), ('insert_file', 6), ('get', 5),
+                                 ('contains', 1), ('remove', 2), ('reopen', 3)])
+            j = rng.below(len(pool))
+            c, i = pool[j], pid[j]
+            if kind == 'good':
+                ops.append([b'insert_with', i, c, 0])
+            elif kind == 'mismatch':
+                ops.append([b'insert_with', i, [b'rep', 90, c[2]], 0])
+            elif kind == 'cut':
+                ops.append([b'insert_with', i, [b'rep', c[1], rng.below(c[2] + 1)], 1])
+            elif kind == 'crash':
+                ops.append([b'crash_upload', i, [b'rep', c[1], c[2] if rng.chance(1, 2) else rng.below(c[2] + 1)], cap])
+            elif kind == 'insert_file':
+                ops.append([b'insert_file', c])
+            elif kind == 'reopen':
+                ops.append([b'reopen', cap if rng.chance(3, 4) else rng.choice(MCAPS)])
+            else:
+                ops.append([kind.encode(), i])
+        # the fault only shows after a restart: always end with one, then ask for every id
+        ops.append([b'reopen', cap])
+        for i in sorted(set(pid)):
+            ops.append([b'get', i])
+        out.append(mk_mount(cap, mounts, ops))
+    return out
+
+
+def shrink_mount(case):
+    cap, table, ids, mounts, ops = case
+    for i in range(len(ops)):
+        yield mk_mount(cap, mounts, ops[:i] + ops[i + 1:])
+    for i in range(len(mounts)):
+        yield mk_mount(cap, mounts[:i] + mounts[i + 1:], ops)
+
+
+def neighbours_mount(case):
+    cap, table, ids, mounts, ops = case
+    for i in range(1, len(ops) + 1):
+        yield mk_mount(cap, mounts, ops[:i] + [[b'reopen', cap]] + ops[i:])
+    for pg in (1, 2, 3):
+        yield mk_mount(cap, [[m[0], pg] for m in mounts], ops)
+    for i, op in enumerate(ops):
+        if op[0] == b'insert_with':
+            for c in MCONTENTS:
+                if _hash_cache.get(ckey(c)) == op[1]:
+                    yield mk_mount(cap, mounts, ops[:i] + [[b'insert_file', c]] + ops[i + 1:])
+            yield mk_mount(cap, mounts, ops[:i + 1] + [[b'reopen', cap], [b'get', op[1]]] + ops[i + 1:])
+
+
+def under_mount(case, i):
+    return len(i) >= 2 and any(kp(i).startswith(m[0]) for m in case[3])
+
+
+def nontrivial_mount(case, out):
+    # non-trivial: an upload into a mounted shard met the failing rename (or its fall-back copy)
+    try:
+        dig = {expand(c): bytes(i) for c, i in case[1]}
+        for op, obs in zip(case[4], out[1:]):
+            if op[0] == b'insert_with' and not op[3] and under_mount(case, op[1]) and dig.get(expand(op[2])) == op[1]:
+                return True
+            if op[0] == b'insert_file' and under_mount(case, dig.get(expand(op[1]), b'')):
+                return True
+    except Exception:
+        return True
+    return False
+
+
+def stats_mount(case, out):
+    ks = ['cap=%d' % case[0], 'mounts=%d' % len(case[3])] + ['pages=%d' % m[1] for m in case[3]]
+    try:
+        dig = {expand(c): bytes(i) for c, i in case[1]}
+        for op, obs in zip(case[4], out[1:]):
+            t = op[0].decode()
+            if op[0] in (b'insert_with', b'crash_upload'):
+                t += ':mounted' if under_mount(case, op[1]) else ':plain'
+            elif op[0] == b'insert_file':
+                t += ':mounted' if under_mount(case, dig.get(expand(op[1]), b'')) else ':plain'
+            ks.append('op=' + t + '->' + obs[0].decode())
+    except Exception:
+        pass
+    return ks
+
+
+def extra(rep, known):
+    if mount_ok():
+        rep.notes.append('mount leg: private mount namespace + tmpfs available; failing-rename cases were run on the real code')
+    else:
+        rep.notes.append('mount leg SKIPPED: unshare(CLONE_NEWNS)/mount(tmpfs) not permitted here; the failing final rename '
+                         'is then covered by the theorems and the model only, not replayed on the real code')
 
 
 # ---------------------------------------------------------------- the client side (ClientToolchains)
@@ -409,6 +579,14 @@ def legs(tier):
                      '19 contents x 5 capacities, incl. pre-populated directories with temp leftovers; ids are real BLAKE3 '
                      'ids computed by the code under test; non-trivial = some upload rejected / crashed or an eviction; '
                      'distinct by full case text'),
+            Leg('mount', lambda rng, tier: gen_mount(rng, 4000 if tier == 'thorough' else 400, 14),
+                monitor=monitor, shrink=shrink_mount, neighbours=neighbours_mount, stats=stats_mount,
+                nontrivial=nontrivial_mount, compare=lambda m, i: i.strip() == '(skipped)' or m == i,
+                rule='shard directories of the cache that are mount points of their own (tmpfs of 1-3 pages mounted in a '
+                     'private mount namespace of the harness): the final rename of a verified upload fails (EXDEV), '
+                     'insert_file falls back to a copy that fits or hits ENOSPC part-way; PRNG sequences of length<=14 + '
+                     'restart + get of every id, 14 contents of 10..9000 bytes, 4 capacities; non-trivial = a matching '
+                     'upload / insert_file went into a mounted shard; skipped (noted in the evidence) without CAP_SYS_ADMIN'),
             Leg('client', lambda rng, tier: gen_client(rng, 20000 if tier == 'thorough' else 1500, 25),
                 monitor=monitor_client, shrink=shrink_client, neighbours=neighbours_client, stats=stats_client,
                 nontrivial=lambda case, out: any(o and o[0] in (b'too_large', b'rejected', b'not_in_cache', b'panic') for o in out),
